@@ -1516,8 +1516,8 @@ Section Sim.
                         (loc_ok_len _ _ _ _ LL1 (loc_ok_le sc k3 k6 y Hk6 Hloc))).
       rewrite Cs2 in Hsimt. fold sb in Hsimt.
       pose proof (yblock_loc_len orc f t st2 y1) as LL2.
-      destruct (yblock orc f st2 t y1) as [v y2|y2|y2|v y2|e|x| |]; cbn [sim2 yres_loc] in *;
-        try (exc1 Hsb Hsimt).
+      destruct (yblock orc f st2 t y1) as [v y2|y2|y2|v y2|e|x| |]; try (exc1 Hsb Hsimt);
+        cbn [sim2 yres_loc] in *.
       + destruct Hsimt as [fin2 [tip2 [Hsimt Hfo2]]].
         set (sc0 := mk B tip2 (v :: ops) y2 (code_len st3) fin2) in *.
         exists fin2, tip2. split; [|exact Hfo2].
@@ -1546,9 +1546,716 @@ Section Sim.
       destruct (match alt with
                 | Some bl => yblock orc f st5 bl y1
                 | None => YOk VNull y1
-                end) as [v y2|y2|y2|v y2|e|x| |]; cbn [sim2] in *;
-        try (exc1 Hsb Hsima);
+                end) as [v y2|y2|y2|v y2|e|x| |]; try (exc1 Hsb Hsima); cbn [sim2] in *;
         (destruct Hsima as [fin2 [tip2 [Hsima Hfo2]]]; exists fin2, tip2; split; [|exact Hfo2];
          exact (reachesL_trans orc prog _ sb _ Hsb Hsima)).
+  Qed.
+
+  (** ** From the canonical form to statement mode: the trailing Pop is executed *)
+
+  Definition sim_full (prog : program) (B : base) (s : vm) (ops : list val) (pop : bool) (ipend lstart lexit : Z)
+             (r : yres val) : Prop :=
+    match r with
+    | YOk v y' => exists fin' tip', reachesL orc prog s (mk B tip' ops y' ipend fin') /\ funs_ok prog (y_funs y')
+                                    /\ (pop = true -> fin' = v)
+    | YBrk y' => exists fin' tip', reachesL orc prog s (mk B tip' (VNull :: ops) y' lexit fin') /\ funs_ok prog (y_funs y')
+    | YCnt y' => exists fin' tip', reachesL orc prog s (mk B tip' (VNull :: ops) y' lstart fin') /\ funs_ok prog (y_funs y')
+    | YRet v y' => forall ret cbp rest, b_rest B = mkFrame ret cbp :: rest ->
+                   exists fin', reachesL orc prog s (ret_state B ret cbp rest v y' fin') /\ funs_ok prog (y_funs y')
+    | YErr k => stopsL orc prog s (Err k)
+    | YFault f => stopsL orc prog s (Fault f)
+    | YExcl => exclL orc prog s
+    | YFuel => True
+    end.
+
+  (* the canonical simulation of something that evaluates as R *)
+  Definition gconcl (pop : bool) (R : nat -> yst -> yres val) (st st' : cstate) (sc : scope) (k' : nat)
+             (ce nb : list Z) : Prop :=
+    (pop = true -> (exists ce', ce = ce' ++ [byte_of_opcode OPop]) /\
+                   brk_ok (code_len st) nb (code_len st' - 1)) /\
+    forall prog lexit, env3 prog st st' (canon pop ce) nb lexit -> 0 <= lexit < 65536 ->
+    0 <= cur_start (c_loops st) ->
+    forall fuel, callsok prog fuel ->
+    forall B tip ops y fin, funs_ok prog (y_funs y) -> loc_ok sc k' y ->
+    sim_l prog B (mk B tip ops y (code_len st) fin) ops pop (code_len st') (cur_start (c_loops st)) lexit (R fuel y).
+
+  Lemma stmt_mode_g : forall pop R st st' pre sc k outer cur ce nb, cfacts3 st st' pre sc k outer cur ce nb ->
+    gconcl pop R st st' sc k ce nb ->
+    forall prog lexit, env3 prog st st' ce nb lexit -> 0 <= lexit < 65536 ->
+    0 <= cur_start (c_loops st) ->
+    forall fuel, callsok prog fuel ->
+    forall B tip ops y fin, funs_ok prog (y_funs y) -> loc_ok sc k y ->
+    sim_full prog B (mk B tip ops y (code_len st) fin) ops pop (code_len st') (cur_start (c_loops st)) lexit (R fuel y).
+  Proof.
+    intros pop R st st' pre sc k outer cur ce nb CF [Hpop Hsim] prog lexit E Hle Hst fuel HC B tip ops y fin Hfo Hloc.
+    destruct pop.
+    - destruct (Hpop eq_refl) as [[ce' Hce'] Bp].
+      pose proof (cf_cd CF) as Hcode. rewrite Hce', app_assoc in Hcode.
+      destruct (code_len_remove_last st' _ Hcode) as [Hcm Hlm].
+      set (stm := remove_last_instruction st') in *.
+      assert (code_len stm = code_len st + zlength ce') as Hlen.
+      { unfold code_len at 1. rewrite Hcm, zlength_app. reflexivity. }
+      rewrite <- Hlm in Bp. rewrite <- (app_nil_r nb), Hce' in E.
+      destruct (env3_split prog st stm st' ce' _ nb [] lexit (code_len st') Hlen Bp
+                  ltac:(cbn [brk_ok]; lia) (cext3_eq stm st' eq_refl) E) as [Ec Ep'].
+      assert (env3 prog st st' (canon true ce) nb lexit) as E0.
+      { unfold canon. rewrite Hce', removelast_last. exact (env3_consts_eq _ _ stm st' _ _ _ eq_refl Ec). }
+      specialize (Hsim prog lexit E0 Hle Hst fuel HC B tip ops y fin Hfo Hloc).
+      destruct (R fuel y) as [v y'|y'|y'|v y'|e|x| |]; try exact Hsim.
+      cbn [sim_l sim_full] in *. destruct Hsim as [fin1 [tip1 [Hsim Hfo1]]].
+      exists v, tip1. split; [|split; [exact Hfo1|reflexivity]].
+      apply (reachesL_trans orc prog _ _ _ Hsim). apply reachesL_step.
+      destruct Ep' as [Epc _ _]. cbn [brk_holes flat_map] in Epc. rewrite Hlm in Epc.
+      pose proof (code_x_at1 _ _ _ _ _ Epc (fun x => x)) as Hat.
+      rewrite (mk_step_pop orc prog B tip1 ops y' (code_len st' - 1) fin1 v [] Hat).
+      replace (code_len st' - 1 + 1) with (code_len st') by lia. reflexivity.
+    - specialize (Hsim prog lexit E Hle Hst fuel HC B tip ops y fin Hfo Hloc).
+      destruct (R fuel y) as [v y'|y'|y'|v y'|e|x| |]; try exact Hsim.
+      cbn [sim_l sim_full] in *. destruct Hsim as [fin1 [tip1 [Hsim Hfo1]]]. exists fin1, tip1.
+      split; [exact Hsim|]. split; [exact Hfo1|discriminate].
+  Qed.
+
+  (* a whole list in statement mode *)
+  Lemma stmt_mode : forall l st st' pre sc k outer cur ce nb, lconcl l st st' pre sc k outer cur ce nb ->
+    forall prog lexit, env3 prog st st' ce nb lexit -> 0 <= lexit < 65536 ->
+    0 <= cur_start (c_loops st) ->
+    forall fuel, callsok prog fuel ->
+    forall B tip ops y fin last, funs_ok prog (y_funs y) -> loc_ok sc k y ->
+    sim_full prog B (mk B tip ops y (code_len st) fin) ops (ends_pop l) (code_len st') (cur_start (c_loops st)) lexit
+             (ystmts orc fuel st l last y).
+  Proof.
+    intros l st st' pre sc k outer cur ce nb [CF [_ [_ [Hpop Hsim]]]] prog lexit E Hle Hst fuel HC B tip ops y fin last Hfo Hloc.
+    apply (stmt_mode_g (ends_pop l) (fun f y0 => ystmts orc f st l last y0) st st' pre sc k outer _ ce nb CF); try assumption.
+    split; [exact Hpop|]. intros prog0 lexit0 E0 Hle0 Hst0 fuel0 HC0 B0 tip0 ops0 y0 fin0 Hfo0 Hloc0.
+    exact (Hsim prog0 lexit0 E0 Hle0 Hst0 fuel0 HC0 B0 tip0 ops0 y0 fin0 last Hfo0 Hloc0).
+  Qed.
+
+  (** ** Statement lists *)
+
+  Lemma lsim_nil : lsim [].
+  Proof.
+    intros lp fa fn st st' pre sc k outer cur HF Hs Hp Hw Hc. cbn [compile_statements] in Hc.
+    inversion Hc; subst st'; clear Hc.
+    exists [], [], k. split; [|lia].
+    split; [|split; [intros N; contradiction|split; [intros N; contradiction|split; [intros N; discriminate N|]]]].
+    - cbn [decl_names3]. rewrite app_nil_r. apply cfacts3_emit; auto. rewrite app_nil_r. reflexivity.
+    - intros prog lexit _ _ _ fuel HC B tip ops y fin last Hfo Hloc. destruct fuel as [|f]; [exact I|]. rewrite ys_nil.
+      cbn [ends_pop sim_l]. exists fin, tip. split; [apply reachesL_refl|exact Hfo].
+  Qed.
+
+  Lemma decl_names3_cons : forall s0 r, decl_names3 (s0 :: r) = decl_names3 [s0] ++ decl_names3 r.
+  Proof.
+    intros s0 r. destruct s0 as [x e|e|e|b| |]; try reflexivity.
+    destruct e as [e1 o e2|o e1|z|fl|bb|c t alt|x|name ps body|fn_ args|e1 e2|str|vs|e1 e2|c body]; try reflexivity.
+    destruct name; reflexivity.
+  Qed.
+
+  Lemma ends_pop_cons2 : forall s0 s1 r, ends_pop (s0 :: s1 :: r) = ends_pop (s1 :: r).
+  Proof. reflexivity. Qed.
+  Lemma ends_ret_cons2 : forall s0 s1 r, ends_ret (s0 :: s1 :: r) = ends_ret (s1 :: r).
+  Proof. reflexivity. Qed.
+
+  (** ** One statement in front of a list: the generic step *)
+
+  Lemma cons_sim : forall s0 r ph Hd st st1 st' pre sc k1 outer cur ce_h nb_h lp fa fn,
+    cfacts3 st st1 pre sc k1 outer (cur ++ decl_names3 [s0]) ce_h nb_h ->
+    last_instruction_is OPop st1 = ph -> ph = stmt_pop s0 ->
+    last_instruction_is OReturnValue st1 = stmt_ret s0 ->
+    gconcl ph Hd st st1 sc k1 ce_h nb_h ->
+    (forall f y, yres_loc (length (y_loc y)) (Hd f y)) ->
+    (forall f last y, ystmts orc (S f) st (s0 :: r) last y =
+                      ybind (Hd f y) (fun v y1 => ystmts orc f st1 r v y1)) ->
+    lsim r -> f3b lp fa fn r = true -> pre_ok pre sc -> compile_statements r st1 = Ok st' ->
+    exists ce nb k', lconcl (s0 :: r) st st' pre sc k' outer cur ce nb /\ (k1 <= k')%nat.
+  Proof.
+    intros s0 r ph Hd st st1 st' pre sc k1 outer cur ce_h nb_h lp fa fn CFh Hlast Hph Hret Gh HdL Heq IHr HFr Hp Hc.
+    pose proof (cf_sy CFh) as Hs1. pose proof (cf_w CFh) as Hw1.
+    destruct r as [|s1 r'].
+    - (* the last statement: its canonical form is the list's *)
+      cbn [compile_statements] in Hc. inversion Hc; subst st'; clear Hc.
+      exists ce_h, nb_h, k1. split; [|lia]. destruct Gh as [Gpop Gsim].
+      split; [|split; [|split; [|split]]].
+      + rewrite decl_names3_cons. cbn [decl_names3]. rewrite app_nil_r. exact CFh.
+      + intros _. cbn [ends_pop]. rewrite Hlast. exact Hph.
+      + intros _. cbn [ends_ret]. exact Hret.
+      + cbn [ends_pop]. rewrite <- Hph. exact Gpop.
+      + intros prog lexit E Hle Hst fuel HC B tip ops y fin last Hfo Hloc. cbn [ends_pop] in *. rewrite <- Hph in *.
+        destruct fuel as [|f]; [exact I|]. rewrite Heq.
+        specialize (Gsim prog lexit E Hle Hst f (callsok_S _ _ HC) B tip ops y fin Hfo Hloc).
+        destruct (Hd f y) as [v y1|y1|y1|v y1|e|x| |]; cbn [ybind]; try exact Gsim.
+        destruct f as [|f']; [exact I|]. rewrite ys_nil. exact Gsim.
+    - (* more statements follow: the head in statement mode, then the rest *)
+      destruct (IHr lp fa fn st1 st' pre sc k1 outer (cur ++ decl_names3 [s0]) HFr Hs1 Hp Hw1 Hc)
+        as [ce_r [nb_r [k' [Lr Hk']]]].
+      pose proof Lr as [CFr [Hlastr [Hretr [Hpopr Hsimr]]]].
+      exists (ce_h ++ ce_r), (nb_h ++ nb_r), k'. split; [|exact Hk'].
+      pose proof (cf_tr CFh CFr) as CF.
+      split; [|split; [|split; [|split]]].
+      + rewrite decl_names3_cons, app_assoc. exact CF.
+      + intros _. rewrite ends_pop_cons2. apply Hlastr. discriminate.
+      + intros _. rewrite ends_ret_cons2. apply Hretr. discriminate.
+      + rewrite ends_pop_cons2. intros Ep. destruct (Hpopr Ep) as [[ce' Hce'] Bp]. split.
+        * exists (ce_h ++ ce'). rewrite Hce', app_assoc. reflexivity.
+        * apply (brk_ok_app _ _ _ (code_len st1)); [exact (cf_bk CFh)|exact Bp].
+      + intros prog lexit E Hle Hst fuel HC B tip ops y fin last Hfo Hloc. rewrite ends_pop_cons2 in *.
+        assert (canon (ends_pop (s1 :: r')) (ce_h ++ ce_r) = ce_h ++ canon (ends_pop (s1 :: r')) ce_r) as Ecanon.
+        { unfold canon. destruct (ends_pop (s1 :: r')) eqn:Ep; [|reflexivity].
+          destruct (Hpopr eq_refl) as [[ce' Hce'] _]. apply removelast_app. rewrite Hce'.
+          destruct ce'; discriminate. }
+        rewrite Ecanon in E.
+        destruct (env3_split prog st st1 st' ce_h _ nb_h nb_r lexit _ (cf_len CFh)
+                    (cf_bk CFh) (cf_bk CFr) (cf_cx CFr) E) as [Eh Er].
+        destruct fuel as [|f]; [exact I|]. rewrite Heq. pose proof (callsok_S _ _ HC) as HC'.
+        pose proof (stmt_mode_g ph Hd st st1 pre sc k1 outer _ ce_h nb_h CFh Gh prog lexit Eh Hle Hst f HC'
+                      B tip ops y fin Hfo (loc_ok_le _ _ _ _ Hk' Hloc)) as Hh.
+        pose proof (HdL f y) as LLh.
+        destruct (Hd f y) as [v y1|y1|y1|v y1|e|x| |]; cbn [ybind]; try exact Hh.
+        cbn [sim_full yres_loc] in Hh, LLh. destruct Hh as [fin1 [tip1 [Hh [Hfo1 _]]]].
+        set (sb := mk B tip1 ops y1 (code_len st1) fin1) in *.
+        assert (0 <= cur_start (c_loops st1)) as Hst1.
+        { rewrite (cf_lp CFh), cur_start_add. exact Hst. }
+        specialize (Hsimr prog lexit Er Hle Hst1 f HC' B tip1 ops y1 fin1 v Hfo1 (loc_ok_len _ _ _ _ LLh Hloc)).
+        rewrite (cf_lp CFh), cur_start_add in Hsimr. fold sb in Hsimr.
+        destruct (ystmts orc f st1 (s1 :: r') v y1) as [v2 y2|y2|y2|v2 y2|e|x| |];
+          cbn [sim_l] in *.
+        * destruct (ends_pop (s1 :: r')); destruct Hsimr as [fin2 [tip2 [Hsimr Hfo2]]]; exists fin2, tip2;
+            (split; [exact (reachesL_trans orc prog _ sb _ Hh Hsimr)|exact Hfo2]).
+        * destruct Hsimr as [fin2 [tip2 [Hsimr Hfo2]]]; exists fin2, tip2;
+            (split; [exact (reachesL_trans orc prog _ sb _ Hh Hsimr)|exact Hfo2]).
+        * destruct Hsimr as [fin2 [tip2 [Hsimr Hfo2]]]; exists fin2, tip2;
+            (split; [exact (reachesL_trans orc prog _ sb _ Hh Hsimr)|exact Hfo2]).
+        * intros ret cbp rest Hb. destruct (Hsimr ret cbp rest Hb) as [fin2 [Hsimr2 Hfo2]]. exists fin2.
+          split; [exact (reachesL_trans orc prog _ sb _ Hh Hsimr2)|exact Hfo2].
+        * refine (reachesL_stopsL orc _ _ _ _ _ Hh Hsimr). reflexivity.
+        * refine (reachesL_stopsL orc _ _ _ _ _ Hh Hsimr). reflexivity.
+        * exact (reachesL_excl orc prog _ sb Hh Hsimr).
+        * exact I.
+  Qed.
+
+  (** ** The kinds of statement *)
+
+  Lemma emit_sym_last3 : forall op sy st st', emit_sym op sy st = Ok st' -> c_last st' = Some op.
+  Proof.
+    intros op sy st st' H. unfold emit_sym in H. apply bind_ok in H. destruct H as [idx [_ H]].
+    inversion H; subst. reflexivity.
+  Qed.
+
+  Lemma last_is : forall op op' st, c_last st = Some op -> last_instruction_is op' st = opcode_eqb op op'.
+  Proof. intros op op' st H. unfold last_instruction_is. rewrite H. reflexivity. Qed.
+
+  Lemma ssim_expr : forall e, (forall c nm ps body, e <> EFunction (c :: nm) ps body) -> esim e -> ssim (SExpr e).
+  Proof.
+    intros e Hnn IHe r IHr lp fa fn st st' pre sc k outer cur HF Hs Hp Hw Hc.
+    rewrite f3b_cons in HF. apply andb_prop in HF. destruct HF as [HFe HFr].
+    rewrite (f3s_expr_other lp fa fn e Hnn) in HFe.
+    cbn [compile_statements] in Hc. apply bind_ok in Hc. destruct Hc as [st2 [H2 Hc]].
+    pose proof H2 as H2'. rewrite cs_expr in H2. apply bind_ok in H2. destruct H2 as [st1 [H1 H2]].
+    inversion H2; subst st2; clear H2.
+    destruct (IHe lp fa fn st st1 pre sc k outer cur HFe Hs Hp Hw H1) as [ce_e [nb_e [k1 [CFe [Hk1 Hsime]]]]].
+    pose proof (cf_sy CFe) as Hs1. pose proof (cf_w CFe) as Hw1.
+    pose proof (cfacts3_emit_opcode OPop st1 pre sc k1 outer cur Hs1 Hw1) as CFp.
+    pose proof (cf_tr CFe CFp) as CFh. rewrite app_nil_r in CFh.
+    assert (decl_names3 [SExpr e] = []) as Hdn.
+    { destruct e as [e1 o e2|o e1|z|fl|bb|c t alt|x|name ps body|fn_ args|e1 e2|str|vs|e1 e2|c body]; try reflexivity.
+      destruct name as [|c nm]; [reflexivity|]. exfalso. exact (Hnn c nm ps body eq_refl). }
+    destruct (cons_sim (SExpr e) r true (fun f y => yeval orc f st e y)
+                    st (emit_opcode OPop st1) st' pre sc k1 outer cur (ce_e ++ [byte_of_opcode OPop]) nb_e lp fa fn)
+      as [ce [nb [k' [L Hk']]]]; try assumption; try reflexivity.
+    - rewrite Hdn, app_nil_r. exact CFh.
+    - split.
+      + intros _. split; [exists ce_e; reflexivity|]. rewrite code_len_emit_opcode.
+        replace (code_len st1 + 1 - 1) with (code_len st1) by lia. exact (cf_bk CFe).
+      + intros prog lexit E Hle Hst fuel HC B tip ops y fin Hfo Hloc. unfold canon in E. rewrite removelast_last in E.
+        assert (env3 prog st st1 ce_e nb_e lexit) as Ee.
+        { destruct E as [A1 A2 A3]. constructor; assumption. }
+        specialize (Hsime prog lexit Ee Hle Hst fuel HC B tip ops y fin Hfo Hloc). rewrite code_len_emit_opcode.
+        destruct (yeval orc fuel st e y); try exact Hsime.
+        cbn [sim_l sim2] in *. replace (code_len st1 + 1 - 1) with (code_len st1) by lia. exact Hsime.
+    - intros f y. apply (proj1 (yeval_loc_len orc f)).
+    - intros f last y. rewrite ys_expr, H2'. reflexivity.
+    - exists ce, nb, k'. split; [exact L|lia].
+  Qed.
+
+  Lemma ssim_let : forall x e, esim e -> ssim (SLet x e).
+  Proof.
+    intros x e IHe r IHr lp fa fn st st' pre sc k outer cur HF Hs Hp Hw Hc.
+    rewrite f3b_cons in HF. apply andb_prop in HF. destruct HF as [HFe HFr]. rewrite f3s_let in HFe.
+    apply andb_prop in HFe. destruct HFe as [HFe _].
+    cbn [compile_statements] in Hc. apply bind_ok in Hc. destruct Hc as [st2 [H2 Hc]].
+    pose proof H2 as H2'. rewrite cs_let, Hs, define_ltab in H2.
+    set (st0 := set_symbols st (ltab pre sc (S k) outer (cur ++ [x]))) in *.
+    set (sym := mkSymbol sc (length (flat outer cur))) in *.
+    apply bind_ok in H2. destruct H2 as [st1 [H1 H2]].
+    assert (length (flat outer (cur ++ [x])) <= S k)%nat as Hw0.
+    { rewrite flat_snoc, app_length. cbn [length]. lia. }
+    destruct (IHe false fa fn st0 st1 pre sc (S k) outer (cur ++ [x]) HFe eq_refl Hp Hw0 H1)
+      as [ce_e [nb_e [k1 [CFe0 [Hk1 Hsime]]]]].
+    pose proof (cfacts3_in _ _ _ _ _ _ _ _ _ _ CFe0) as CFe.
+    pose proof (cf_sy CFe) as Hs1. pose proof (cf_w CFe) as Hw1.
+    destruct (cfacts3_emit_sym _ _ _ _ pre sc k1 outer (cur ++ [x]) Hs1 Hw1 H2) as [Hr CFs].
+    pose proof (cf_tr CFe CFs) as CFh. rewrite app_nil_r in CFh.
+    destruct (cons_sim (SLet x e) r false
+             (fun f y => ybind (yeval orc f st0 e y) (fun v y1 => YOk VNull (y_set sym v y1)))
+             st st2 st' pre sc k1 outer cur _ nb_e lp fa fn CFh)
+      as [ce [nb [k' [L Hk']]]]; try assumption; try reflexivity.
+    - rewrite (last_is _ _ _ (emit_sym_last3 _ _ _ _ H2)). unfold scoped. destruct (s_scope sym); reflexivity.
+    - rewrite (last_is _ _ _ (emit_sym_last3 _ _ _ _ H2)). unfold scoped. destruct (s_scope sym); reflexivity.
+    - split; [intros N; discriminate N|].
+      intros prog lexit E Hle Hst fuel HC B tip ops y fin Hfo Hloc. unfold canon in E.
+      rewrite <- (app_nil_r nb_e) in E.
+      destruct (env3_split prog st st1 st2 ce_e _ nb_e [] lexit (code_len st2) (cf_len CFe)
+                  (cf_bk CFe) (cf_bk CFs) (cf_cx CFs) E) as [Ee Es].
+      specialize (Hsime prog lexit (env3_in _ _ _ _ _ _ _ Ee) Hle Hst fuel HC B tip ops y fin Hfo Hloc).
+      change (cur_start (c_loops st0)) with (cur_start (c_loops st)) in Hsime.
+      change (code_len st0) with (code_len st) in Hsime.
+      destruct (yeval orc fuel st0 e y) as [v y1|y1|y1|v y1|e1|x1| |] eqn:E1; cbn [ybind];
+        try (nosig_contra fuel e fa fn st0 y HFe E1);
+        try (exact (sim_l_sim2 _ _ _ _ false (code_len st2) (code_len st2) _ _ _ I Hsime)); try exact Hsime.
+      loclen fuel e st0 y E1 LL.
+      cbn [sim2 sim_l] in *. destruct Hsime as [fin1 [tip1 [Hsime Hfo1]]].
+      exists fin1, tip1. split.
+      2:{ unfold y_set. destruct (s_scope sym); exact Hfo1. }
+      apply (reachesL_trans orc prog _ _ _ Hsime). apply reachesL_step.
+      destruct Es as [Esc _ _]. cbn [brk_holes flat_map] in Esc.
+      pose proof (code_x_at3 _ _ _ _ _ _ _ Esc (holes_nil _ _)) as Hat.
+      pose proof (cf_len CFs) as Ls. rewrite zlength3 in Ls. rewrite Ls.
+      unfold scoped in Hat. unfold y_set. destruct (s_scope sym) eqn:Es.
+      + assert (sc = SLocal) as Esc' by exact Es. destruct (Hloc Esc') as [Hk _].
+        apply (mk_step_set_local orc prog B tip1 ops y1 (code_len st1) fin1 (s_index sym) v [] Hat Hr).
+        unfold sym. cbn [s_index]. lia.
+      + rewrite (mk_step_set_global orc prog B tip1 ops y1 (code_len st1) fin1 _ v [] Hat Hr).
+        rewrite Nat2Z.id. reflexivity.
+    - intros f y. apply yres_loc_bind; [apply (proj1 (yeval_loc_len orc f))|]. intros v y1 L1. cbn [yres_loc].
+      rewrite y_set_loc_len. exact L1.
+    - intros f last y. rewrite ys_let, Hs, define_ltab. fold st0 sym. rewrite H2'.
+      destruct (yeval orc f st0 e y); reflexivity.
+    - exists ce, nb, k'. split; [exact L|lia].
+  Qed.
+
+  Lemma ssim_break : ssim SBreak.
+  Proof.
+    intros r IHr lp fa fn st st' pre sc k outer cur HF Hs Hp Hw Hc.
+    rewrite f3b_cons in HF. apply andb_prop in HF. destruct HF as [_ HFr].
+    cbn [compile_statements] in Hc. apply bind_ok in Hc. destruct Hc as [st2 [H2 Hc]].
+    pose proof (break_last _ _ H2) as Hlast.
+    destruct (break_innermost _ _ H2) as [outer_l [ctx [Hl [Hl2 [Hcode [Hsy Hk]]]]]].
+    set (ip := code_len st + 1) in *.
+    assert (code_len st2 = code_len st + 4) as L2.
+    { rewrite (code_len_app _ _ _ Hcode). reflexivity. }
+    assert (cfacts3 st st2 pre sc k outer cur break_code [ip]) as CFh.
+    { constructor.
+      - congruence.
+      - exact Hw.
+      - exact Hcode.
+      - apply cext3_eq. exact Hk.
+      - rewrite Hl2, Hl, add_breaks_snoc. reflexivity.
+      - intros N. rewrite N in Hl. destruct outer_l; discriminate Hl.
+      - cbn [brk_ok]. unfold ip. lia. }
+    destruct (cons_sim SBreak r false (fun f y => YBrk y) st st2 st' pre sc k outer cur break_code [ip] lp fa fn)
+      as [ce [nb [k' [L Hk']]]]; try assumption; try reflexivity.
+    - cbn [decl_names3]. rewrite app_nil_r. exact CFh.
+    - rewrite (last_is _ _ _ Hlast). reflexivity.
+    - rewrite (last_is _ _ _ Hlast). reflexivity.
+    - split; [intros N; discriminate N|].
+      intros prog lexit [E1 _ E3] Hle _ fuel HC B tip ops y fin Hfo Hloc. cbn [sim_l]. unfold canon in E1.
+      destruct E1 as [E0 E1].
+      assert (~ In (code_len st) (brk_holes [ip])) as Hn0.
+      { cbn [brk_holes flat_map app In]. unfold ip. lia. }
+      assert (~ In (code_len st + 1) (brk_holes [ip])) as Hn1.
+      { cbn [brk_holes flat_map app In]. unfold ip. lia. }
+      pose proof (E1 0%nat _ eq_refl) as B0. rewrite Z.add_0_r in B0. specialize (B0 Hn0).
+      pose proof (E1 1%nat _ eq_refl Hn1) as B1. change (Z.of_nat 1) with 1 in B1.
+      destruct (E3 ip (or_introl eq_refl)) as [B2 B3].
+      exists fin, tip. split; [|exact Hfo].
+      pose proof (mk_step_null orc prog B tip ops y (code_len st) fin [] (code_at_bytes1 _ _ _ B0)) as Hstep1.
+      apply (reachesL_trans orc prog _ _ _ (reachesL_step orc prog _ _ Hstep1)).
+      apply reachesL_step. fold ip. fold ip in B1.
+      exact (mk_step_jump orc prog B tip (VNull :: ops) y ip fin lexit [] (code_at_bytes3 _ _ _ _ _ B1 B2 B3) Hle).
+    - exists ce, nb, k'. split; [exact L|lia].
+  Qed.
+
+  Lemma ssim_continue : ssim SContinue.
+  Proof.
+    intros r IHr lp fa fn st st' pre sc k outer cur HF Hs Hp Hw Hc.
+    rewrite f3b_cons in HF. apply andb_prop in HF. destruct HF as [_ HFr].
+    cbn [compile_statements] in Hc. apply bind_ok in Hc. destruct Hc as [st2 [H2 Hc]].
+    pose proof (continue_last _ _ H2) as Hlast.
+    destruct (continue_innermost _ _ H2) as [outer_l [ctx [Hl [Hl2 [Hlt [Hcode [Hsy Hk]]]]]]].
+    assert (cur_start (c_loops st) = l_start ctx) as Hcs by (rewrite Hl; apply cur_start_snoc).
+    set (T := l_start ctx) in *.
+    pose proof (cfacts3_emit st st2 pre sc k outer cur _ Hs Hw Hsy Hk Hl2 Hcode) as CFh.
+    destruct (cons_sim SContinue r false (fun f y => YCnt y) st st2 st' pre sc k outer cur
+             [byte_of_opcode ONull; byte_of_opcode OJump; T mod 256; (T / 256) mod 256] [] lp fa fn)
+      as [ce [nb [k' [L Hk']]]]; try assumption; try reflexivity.
+    - cbn [decl_names3]. rewrite app_nil_r. exact CFh.
+    - rewrite (last_is _ _ _ Hlast). reflexivity.
+    - rewrite (last_is _ _ _ Hlast). reflexivity.
+    - split; [intros N; discriminate N|].
+      intros prog lexit [E1 _ _] _ Hst fuel HC B tip ops y fin Hfo Hloc. cbn [sim_l]. unfold canon in E1.
+      cbn [brk_holes flat_map] in E1.
+      change [byte_of_opcode ONull; byte_of_opcode OJump; T mod 256; (T / 256) mod 256]
+        with ([byte_of_opcode ONull] ++ [byte_of_opcode OJump; T mod 256; (T / 256) mod 256]) in E1.
+      apply code_x_app in E1. destruct E1 as [Ea Eb].
+      exists fin, tip. split; [|exact Hfo].
+      pose proof (mk_step_null orc prog B tip ops y (code_len st) fin [] (code_x_at1 _ _ _ _ _ Ea (fun x => x))) as Hstep1.
+      apply (reachesL_trans orc prog _ _ _ (reachesL_step orc prog _ _ Hstep1)).
+      change (zlength [byte_of_opcode ONull]) with 1 in Eb.
+      assert (0 <= T < 65536) as RT by (rewrite <- Hcs; change (2 ^ 16) with 65536 in Hlt; rewrite Hcs; lia).
+      apply reachesL_step. rewrite Hcs.
+      exact (mk_step_jump orc prog B tip (VNull :: ops) y (code_len st + 1) fin T []
+               (code_x_at3 _ _ _ _ _ _ _ Eb (holes_nil _ _)) RT).
+    - exists ce, nb, k'. split; [exact L|lia].
+  Qed.
+
+  Lemma ssim_block : forall b, lsim b -> ssim (SBlock b).
+  Proof.
+    intros b IHb r IHr lp fa fn st st' pre sc k outer cur HF Hs Hp Hw Hc.
+    rewrite f3b_cons in HF. apply andb_prop in HF. destruct HF as [HFb HFr]. rewrite f3s_block in HFb.
+    cbn [compile_statements] in Hc. apply bind_ok in Hc. destruct Hc as [st2 [H2 Hc]].
+    pose proof H2 as H2'. rewrite cs_block in H2.
+    destruct b as [|s0 b'].
+    - (* the empty block: Null; Pop *)
+      cbn [is_nil] in H2. inversion H2; subst st2; clear H2.
+      pose proof (cfacts3_emit_opcode ONull st pre sc k outer cur Hs Hw) as CF1.
+      pose proof (cfacts3_emit_opcode OPop (emit_opcode ONull st) pre sc k outer cur Hs Hw) as CF2.
+      pose proof (cf_tr CF1 CF2) as CFh. cbn [app] in CFh.
+      destruct (cons_sim (SBlock []) r true (fun f y => yblock orc f st [] y)
+               st (emit_opcode OPop (emit_opcode ONull st)) st' pre sc k outer cur
+               [byte_of_opcode ONull; byte_of_opcode OPop] [] lp fa fn)
+        as [ce [nb [k' [L Hk']]]]; try assumption; try reflexivity.
+      + cbn [decl_names3]. rewrite app_nil_r. exact CFh.
+      + split.
+        * intros _. split; [exists [byte_of_opcode ONull]; reflexivity|]. cbn [brk_ok].
+          rewrite !code_len_emit_opcode. lia.
+        * intros prog lexit [E1 _ _] _ _ fuel HC B tip ops y fin Hfo Hloc. unfold yblock, yblock_g. cbn [is_nil].
+          destruct fuel as [|f]; [exact I|]. rewrite ys_nil.
+          cbn [sim_l]. unfold canon in E1. cbn [removelast brk_holes flat_map] in E1.
+          exists fin, tip. split; [|exact Hfo]. apply reachesL_step.
+          rewrite (mk_step_null orc prog B tip ops y (code_len st) fin [] (code_x_at1 _ _ _ _ _ E1 (fun x => x))).
+          rewrite !code_len_emit_opcode. replace (code_len st + 1 + 1 - 1) with (code_len st + 1) by lia. reflexivity.
+      + intros f y. apply yblock_loc_len.
+      + exists ce, nb, k'. split; [exact L|lia].
+    - cbn [is_nil] in H2. apply bind_ok in H2. destruct H2 as [st1 [H1 H2]]. inversion H2; subst st2; clear H2.
+      set (st0 := set_symbols st (enter_scope (c_symbols st))) in *.
+      assert (c_symbols st0 = ltab pre sc k (outer ++ [cur]) []) as Hs0
+        by (unfold st0; cbn [set_symbols c_symbols]; rewrite Hs; apply enter_ltab).
+      assert (length (flat (outer ++ [cur]) []) <= k)%nat as Hw0 by (rewrite flat_enter; exact Hw).
+      destruct (IHb lp fn fn st0 st1 pre sc k (outer ++ [cur]) [] HFb Hs0 Hp Hw0 H1)
+        as [ce [nb [k1 [[CFb [Hlastb [Hretb [Hpopb Hsimb]]]] Hk1]]]].
+      pose proof (cf_sy CFb) as S1. cbn [app] in S1.
+      set (st1' := set_symbols st1 (leave_scope (c_symbols st1))) in *.
+      assert (leave_scope (c_symbols st1) = ltab pre sc k1 outer cur) as Hleave by (rewrite S1; apply leave_ltab).
+      assert (length (flat outer cur) <= k1)%nat as Hw1 by lia.
+      pose proof (cfacts3_out _ _ _ _ _ _ _ _ pre sc k1 outer cur _ _ (cfacts3_in _ _ _ _ _ _ _ _ _ _ CFb) Hleave Hw1) as CFh.
+      fold st1' in CFh.
+      destruct (cons_sim (SBlock (s0 :: b')) r (ends_pop (s0 :: b'))
+               (fun f y => yblock orc f st (s0 :: b') y) st st1' st' pre sc k1 outer cur ce nb lp fa fn)
+        as [ce2 [nb2 [k' [L Hk']]]]; try assumption.
+      + cbn [decl_names3]. rewrite app_nil_r. exact CFh.
+      + rewrite <- Hlastb by discriminate. reflexivity.
+      + rewrite stmt_pop_block. reflexivity.
+      + rewrite stmt_ret_block. rewrite <- Hretb by discriminate. reflexivity.
+      + split.
+        * intros Ep. exact (Hpopb Ep).
+        * intros prog lexit E Hle Hst fuel HC B tip ops y fin Hfo Hloc.
+          exact (Hsimb prog lexit (env3_in _ _ _ _ _ _ _ (env3_out _ _ _ _ _ _ _ E)) Hle Hst fuel HC B tip ops y fin VNull Hfo Hloc).
+      + intros f y. apply yblock_loc_len.
+      + intros f last y. rewrite ys_block, H2'. reflexivity.
+      + exists ce2, nb2, k'. split; [exact L|lia].
+  Qed.
+
+  (* antwoord: the value is returned to the caller, whatever is pending in the activation *)
+  Lemma ssim_return : forall e, esim e -> ssim (SReturn e).
+  Proof.
+    intros e IHe r IHr lp fa fn st st' pre sc k outer cur HF Hs Hp Hw Hc.
+    rewrite f3b_cons in HF. apply andb_prop in HF. destruct HF as [HFe HFr]. rewrite f3s_return in HFe.
+    cbn [compile_statements] in Hc. apply bind_ok in Hc. destruct Hc as [st2 [H2 Hc]].
+    rewrite CompilerNames.cs_return in H2.
+    destruct (in_global_context (c_symbols st)); [discriminate H2|].
+    apply bind_ok in H2. destruct H2 as [st1 [H1 H2]]. inversion H2; subst st2; clear H2.
+    destruct (IHe false fa fn st st1 pre sc k outer cur HFe Hs Hp Hw H1) as [ce_e [nb_e [k1 [CFe [Hk1 Hsime]]]]].
+    pose proof (cf_sy CFe) as Hs1. pose proof (cf_w CFe) as Hw1.
+    pose proof (cfacts3_emit_opcode OReturnValue st1 pre sc k1 outer cur Hs1 Hw1) as CFp.
+    pose proof (cf_tr CFe CFp) as CFh. rewrite app_nil_r in CFh.
+    destruct (cons_sim (SReturn e) r false
+               (fun f y => ybind (yeval orc f st e y) (fun v y1 => if gc_clean y1 then YRet v y1 else YFuel))
+               st (emit_opcode OReturnValue st1) st' pre sc k1 outer cur
+               (ce_e ++ [byte_of_opcode OReturnValue]) nb_e lp fa fn)
+      as [ce [nb [k' [L Hk']]]]; try assumption; try reflexivity.
+    - cbn [decl_names3]. rewrite app_nil_r. exact CFh.
+    - split; [intros N; discriminate N|].
+      intros prog lexit E Hle Hst fuel HC B tip ops y fin Hfo Hloc. unfold canon in E.
+      rewrite <- (app_nil_r nb_e) in E. destruct (env_two CFe CFp E) as [Ee [Erc _ _]].
+      specialize (Hsime prog lexit Ee Hle Hst fuel HC B tip ops y fin Hfo Hloc).
+      destruct (yeval orc fuel st e y) as [v y1|y1|y1|v y1|e1|x1| |] eqn:E1; cbn [ybind];
+        try (nosig_contra fuel e fa fn st y HFe E1);
+        try (exact (sim_l_sim2 _ _ _ _ false (code_len st1) (code_len st1) _ _ _ I Hsime)); try exact Hsime.
+      cbn [sim2] in Hsime. destruct Hsime as [fin1 [tip1 [Hsime Hfo1]]].
+      unfold gc_clean. destruct (objects (m_gc (y_m y1))) eqn:Eg; [|exact I].
+      cbn [sim_l]. intros ret cbp rest Hb. exists fin1. split; [|exact Hfo1].
+      apply (reachesL_trans orc prog _ _ _ Hsime). apply reachesL_step.
+      cbn [brk_holes flat_map] in Erc.
+      exact (mk_step_return_value orc prog B tip1 ops y1 (code_len st1) fin1 v ret cbp rest [] (code_x_V _ _ _ Erc) Hb Eg).
+    - intros f y. apply yres_loc_bind; [apply (proj1 (yeval_loc_len orc f))|]. intros v y1 L1.
+      destruct (gc_clean y1); [exact L1|exact I].
+    - intros f last y. rewrite ys_return. destruct (yeval orc f st e y) as [v y1| | | | | | |]; try reflexivity.
+      cbn [ybind]. destruct (gc_clean y1); reflexivity.
+    - exists ce, nb, k'. split; [exact L|lia].
+  Qed.
+
+  (** ** zolang *)
+
+  (* what the machine does from the loop head sh, with the value of the last iteration on top of ops *)
+  Definition loop_post (prog : program) (B : base) (sh : vm) (ops : list val) (lexit : Z) (r : yres val) : Prop :=
+    match r with
+    | YOk v y' => exists fin' tip', reachesL orc prog sh (mk B tip' (v :: ops) y' lexit fin') /\ funs_ok prog (y_funs y')
+    | YBrk _ | YCnt _ => False
+    | YRet v y' => forall ret cbp rest, b_rest B = mkFrame ret cbp :: rest ->
+                   exists fin', reachesL orc prog sh (ret_state B ret cbp rest v y' fin') /\ funs_ok prog (y_funs y')
+    | YErr k => stopsL orc prog sh (Err k)
+    | YFault f => stopsL orc prog sh (Fault f)
+    | YExcl => exclL orc prog sh
+    | YFuel => True
+    end.
+
+  Lemma loop_post_reach : forall prog B s sh ops lexit r, reachesL orc prog s sh -> v_out sh = v_out s ->
+    loop_post prog B sh ops lexit r -> loop_post prog B s ops lexit r.
+  Proof.
+    intros prog B s sh ops lexit r Hr Ho H. destruct r as [v y'|y'|y'|v y'|e|x| |]; cbn [loop_post] in *; try contradiction.
+    - destruct H as [fin' [tip' [H F]]]. exists fin', tip'. split; [exact (reachesL_trans orc prog _ _ _ Hr H)|exact F].
+    - intros ret cbp rest Hb. destruct (H ret cbp rest Hb) as [fin' [H' F]]. exists fin'.
+      split; [exact (reachesL_trans orc prog _ _ _ Hr H')|exact F].
+    - exact (reachesL_stopsL orc prog _ _ _ Ho Hr H).
+    - exact (reachesL_stopsL orc prog _ _ _ Ho Hr H).
+    - exact (reachesL_excl orc prog _ _ Hr H).
+    - exact I.
+  Qed.
+
+  Lemma esim_while : forall c body, esim c -> lsim body -> esim (EWhile c body).
+  Proof.
+    intros c body IHc IHb lp fa fn st st' pre sc k outer cur HF Hs Hp Hw Hc.
+    rewrite f3e_while in HF. apply andb_prop in HF. destruct HF as [Hfc Hfb].
+    rewrite ce_while in Hc. cbv zeta in Hc.
+    set (st1 := emit_opcode ONull st) in *.
+    pose proof (code_len_emit_opcode ONull st) as L1. fold st1 in L1.
+    set (start := code_len st1) in *.
+    change (set_loops st1 (c_loops st1 ++ [mkLoop start []])) with (wh_st2 st) in Hc.
+    set (st2 := wh_st2 st) in *.
+    apply bind_ok in Hc. destruct Hc as [st3 [H3 Hc]].
+    apply bind_ok in Hc. destruct Hc as [st5 [H5 Hc]].
+    apply bind_ok in Hc. destruct Hc as [back [Hb Hc]].
+    apply bind_ok in Hc. destruct Hc as [target [Ht Hc]].
+    apply bind_ok in Hc. destruct Hc as [st8 [H8 Hc]].
+    assert (c_symbols st2 = ltab pre sc k outer cur) as Hs2 by exact Hs.
+    destruct (IHc false fa fn st2 st3 pre sc k outer cur Hfc Hs2 Hp Hw H3) as [ce_c [nb_c [k3 [CF3 [Hk3 Hsimc]]]]].
+    pose proof (cf_sy CF3) as Hs3. pose proof (cf_w CF3) as Hw3.
+    set (PHlo := JUMP_PLACEHOLDER mod 256) in *. set (PHhi := (JUMP_PLACEHOLDER / 256) mod 256) in *.
+    change (emit_opcode OPop (emit_u16 JUMP_PLACEHOLDER (emit_opcode OJumpIfFalse st3))) with (wh_st4 st3) in H5.
+    set (st4 := wh_st4 st3) in *.
+    assert (cfacts3 st3 st4 pre sc k3 outer cur [byte_of_opcode OJumpIfFalse; PHlo; PHhi; byte_of_opcode OPop] []) as CF34.
+    { apply cfacts3_emit; auto. unfold st4, wh_st4. cbn [emit_opcode emit_u16 c_code].
+      rewrite <- !app_assoc. reflexivity. }
+    assert (c_symbols st4 = ltab pre sc k3 outer cur) as Hs4 by exact Hs3.
+    destruct (bv_sim body IHb true fn fn st4 st5 pre sc k3 outer cur Hfb Hs4 Hp Hw3 H5) as [ce_b [nb_b [k5 [CF5 [Hk5 Hsimb]]]]].
+    pose proof (cf_sy CF5) as Hs5. pose proof (cf_w CF5) as Hw5.
+    destruct (operand16_cl _ _ Hb) as [-> Rs]. clear Hb.
+    set (st7 := emit_u16 start (emit_opcode OJump st5)) in *.
+    pose proof (cfacts3_emit_u16op OJump start st5 pre sc k5 outer cur Hs5 Hw5) as CF57. fold st7 in CF57.
+    destruct (operand16_cl _ _ Ht) as [-> Re]. clear Ht.
+    set (lexit_in := code_len st7) in *.
+    pose proof (cf_tr CF3 (cf_tr CF34 (cf_tr CF5 CF57))) as CF27.
+    set (jmp3 := [byte_of_opcode OJump; start mod 256; (start / 256) mod 256]) in *.
+    set (nbi := nb_c ++ nb_b).
+    assert (cfacts3 st2 st7 pre sc k5 outer cur
+              (ce_c ++ byte_of_opcode OJumpIfFalse :: PHlo :: PHhi :: (byte_of_opcode OPop :: ce_b ++ jmp3)) nbi) as CF27'.
+    { apply (cfacts3_eq _ _ _ _ _ _ _ _ _ _ _ CF27); unfold nbi; cbn [app]; rewrite ?app_nil_r; reflexivity. }
+    clear CF27.
+    pose proof (cf_len CF3) as L3. rewrite L3 in H8.
+    destruct (cfacts3_patch_at _ _ _ _ _ _ _ _ _ _ _ _ _ _ lexit_in CF27' H8) as [CF28 [L8 [_ K8]]].
+    set (jif4 := [byte_of_opcode OJumpIfFalse; lexit_in mod 256; (lexit_in / 256) mod 256; byte_of_opcode OPop]) in *.
+    set (W8 := ce_c ++ jif4 ++ ce_b ++ jmp3).
+    assert (cfacts3 st2 st8 pre sc k5 outer cur W8 nbi) as CF28' by exact CF28. clear CF28.
+    (* the innermost context is popped *)
+    pose proof (cf_lp CF28') as Lp8.
+    assert (c_loops st2 = c_loops st ++ [mkLoop start []]) as Lp2 by reflexivity.
+    rewrite Lp2, add_breaks_snoc in Lp8. cbn [l_start l_breaks app] in Lp8.
+    rewrite Lp8, rev_unit in Hc. cbn [l_breaks] in Hc. rewrite rev_involutive in Hc.
+    pose proof (cf_bk CF28') as B28.
+    assert (0 <= code_len st2) as Hpos2 by apply code_len_nonneg.
+    assert (Forall (fun ip => 0 <= ip) nbi) as Hposn.
+    { apply Forall_forall. intros ip Hin. destruct (brk_ok_in _ _ _ _ B28 Hin). lia. }
+    destruct (patch_breaks_spec _ _ _ Hposn Hc) as [P1 [P2 [P3 [P4 [P5 [_ P7]]]]]].
+    cbn [set_loops c_symbols c_constants c_loops c_last c_code] in P1, P2, P3, P5, P7.
+    assert (code_len (set_loops st8 (c_loops st)) = lexit_in) as Lx by (unfold lexit_in; rewrite <- L8; reflexivity).
+    rewrite Lx in P7.
+    pose proof (cf_cd CF28') as C8.
+    assert (c_code st2 = c_code st ++ [byte_of_opcode ONull]) as C2 by reflexivity.
+    rewrite C2, <- app_assoc in C8. set (W8f := [byte_of_opcode ONull] ++ W8) in *.
+    assert (code_len st2 = code_len st + 1) as L2 by exact L1.
+    assert (forall ip, In ip nbi -> (length (c_code st) <= Z.to_nat ip)%nat) as Hpre.
+    { intros ip Hin. destruct (brk_ok_in _ _ _ _ B28 Hin) as [Q _]. unfold code_len, zlength in L2, Q. lia. }
+    rewrite C8 in P7. destruct (wt_prefix lexit_in nbi (c_code st) W8f Hpre) as [W' [EW' LW']].
+    rewrite EW' in P7.
+    assert (code_len st' = lexit_in) as L'.
+    { rewrite <- Lx. apply code_len_length. exact P5. }
+    (* constants *)
+    assert (cext3 st2 st8) as X28 by exact (cf_cx CF28').
+    assert (cext3 st8 st') as X8' by (apply cext3_eq; exact P2).
+    assert (cext3 st2 st') as X2' by exact (cext3_trans _ _ _ X28 X8').
+    exists W', [], k5. split; [|split; [lia|]].
+    { constructor.
+      - rewrite P1. exact (cf_sy CF28').
+      - exact Hw5.
+      - exact P7.
+      - exact (cext3_trans st st2 st' (cext3_eq st st2 eq_refl) X2').
+      - rewrite add_breaks_nil. exact P3.
+      - reflexivity.
+      - cbn [brk_ok]. rewrite L'. unfold lexit_in. rewrite (cf_len CF57).
+        pose proof (brk_ok_le _ _ _ (cf_bk CF5)). pose proof (brk_ok_le _ _ _ (cf_bk CF34)).
+        pose proof (brk_ok_le _ _ _ (cf_bk CF3)). unfold jmp3. rewrite zlength3. lia. }
+    (* the run *)
+    intros prog lexit E Hle Hst fuel HC B tip ops y fin Hfo Hloc. destruct fuel as [|f]; [exact I|].
+    rewrite ye_while. fold st2. rewrite H3. fold st4.
+    destruct E as [[E0 Ecode] Econsts _].
+    (* the final program, seen as the unpatched loop code with the stop jumps pending *)
+    assert (forall i b, nth_error W8f i = Some b -> ~ In (code_len st + Z.of_nat i) (brk_holes nbi) ->
+                        byte_at prog (code_len st + Z.of_nat i) = Some b) as Hbytes.
+    { intros i b Hi Hn. apply Ecode; [|intros []].
+      assert (nth_error (c_code st') (length (c_code st) + i) = Some b) as Hc'.
+      { rewrite P7, <- EW'. rewrite wt_other.
+        - rewrite nth_error_app2 by lia. replace (length (c_code st) + i - length (c_code st))%nat with i by lia.
+          exact Hi.
+        - intros ip Hin. pose proof (Hpre ip Hin) as Q. destruct (brk_ok_in _ _ _ _ B28 Hin) as [Q1 _].
+          assert (~ (code_len st + Z.of_nat i = ip + 1 \/ code_len st + Z.of_nat i = ip + 2)) as Hn'.
+          { intros Hor. apply Hn. apply in_brk_holes. exists ip. split; [exact Hin|exact Hor]. }
+          unfold code_len, zlength in Hn'. lia. }
+      rewrite P7, nth_error_app2 in Hc' by lia.
+      replace (length (c_code st) + i - length (c_code st))%nat with i in Hc' by lia. exact Hc'. }
+    assert (brk_target prog nbi lexit_in) as Htarget.
+    { intros ip Hin. destruct (brk_ok_in _ _ _ _ B28 Hin) as [Q1 Q2]. pose proof (Hpre ip Hin) as Q.
+      assert (lexit_in <= Z.of_nat (length (c_code st ++ W8f))) as Hhi.
+      { rewrite <- C8. unfold lexit_in. rewrite <- L8. unfold code_len, zlength. lia. }
+      rewrite L8 in B28. fold lexit_in in B28.
+      destruct (wt_at lexit_in nbi _ _ (c_code st ++ W8f) ip B28 Hpos2 Hhi Hin) as [A1 A2].
+      rewrite EW' in A1, A2.
+      rewrite nth_error_app2 in A1, A2 by lia.
+      pose proof (Ecode _ _ A1 (fun x => match x with end)) as B1.
+      pose proof (Ecode _ _ A2 (fun x => match x with end)) as B2.
+      unfold code_len, zlength in B1, B2, L2, Q1.
+      replace (Z.of_nat (length (c_code st)) + Z.of_nat (Z.to_nat ip + 1 - length (c_code st))) with (ip + 1) in B1 by lia.
+      replace (Z.of_nat (length (c_code st)) + Z.of_nat (Z.to_nat ip + 2 - length (c_code st))) with (ip + 2) in B2 by lia.
+      split; assumption. }
+    assert (env3 prog st st' W8f ([] ++ nbi) lexit_in) as E8.
+    { constructor; [split; [exact E0|exact Hbytes]|exact Econsts|exact Htarget]. }
+    (* the pieces *)
+    pose proof (cf_bk CF3) as B3. pose proof (cf_bk CF5) as B5.
+    pose proof (cf_len CF34) as L4. pose proof (cf_len CF5) as L5.
+    pose proof (cf_len CF57) as L7. unfold jmp3 in L7. rewrite zlength3 in L7.
+    change (zlength [byte_of_opcode OJumpIfFalse; PHlo; PHhi; byte_of_opcode OPop]) with 4 in L4.
+    assert (brk_ok (code_len st2) nbi (code_len st5)) as B25.
+    { apply (brk_ok_app _ _ _ (code_len st3) _ B3). apply (brk_ok_widen _ _ _ _ _ B5); lia. }
+    assert (code_len st2 = code_len st + zlength [byte_of_opcode ONull]) as L2' by exact L2.
+    destruct (env3_split prog st st2 st' [byte_of_opcode ONull] W8 [] nbi lexit_in _ L2'
+                ltac:(cbn [brk_ok]; lia) B25 X2' E8) as [Enull E2].
+    assert (cext3 st3 st') as X3'.
+    { apply (cext3_trans _ st4); [exact (cf_cx CF34)|].
+      apply (cext3_trans _ st5); [exact (cf_cx CF5)|].
+      apply (cext3_trans _ st7); [exact (cf_cx CF57)|].
+      apply (cext3_trans _ st8); [apply cext3_eq; exact K8|exact X8']. }
+    assert (cext3 st4 st') as X4'.
+    { destruct X3' as [kx [A Bx]]. exists kx. split; [exact A|exact Bx]. }
+    assert (cext3 st5 st') as X5'.
+    { apply (cext3_trans _ st7); [exact (cf_cx CF57)|].
+      apply (cext3_trans _ st8); [apply cext3_eq; exact K8|exact X8']. }
+    assert (brk_ok (code_len st3) nb_b (code_len st5)) as B35 by (apply (brk_ok_widen _ _ _ _ _ B5); lia).
+    destruct (env3_split prog st2 st3 st' ce_c _ nb_c nb_b lexit_in _ L3 B3 B35 X3' E2) as [Ec E3].
+    assert (code_len st4 = code_len st3 + zlength jif4) as L4' by exact L4.
+    destruct (env3_split prog st3 st4 st' jif4 _ [] nb_b lexit_in _ L4'
+                ltac:(cbn [brk_ok]; lia) B5 X4' E3) as [Ejif E4].
+    rewrite <- (app_nil_r nb_b) in E4.
+    destruct (env3_split prog st4 st5 st' ce_b jmp3 nb_b [] lexit_in (code_len st') L5 B5
+                ltac:(cbn [brk_ok]; lia) X5' E4) as [Eb Ejmp].
+    (* instructions of the loop skeleton *)
+    destruct Enull as [Enullc _ _]. cbn [brk_holes flat_map] in Enullc.
+    pose proof (code_x_at1 _ _ _ _ _ Enullc (fun x => x)) as Hnull.
+    destruct Ejif as [Ejifc _ _]. cbn [brk_holes flat_map] in Ejifc.
+    change jif4 with ([byte_of_opcode OJumpIfFalse; lexit_in mod 256; (lexit_in / 256) mod 256] ++ [byte_of_opcode OPop]) in Ejifc.
+    apply code_x_app in Ejifc. destruct Ejifc as [Ejc Epc]. rewrite zlength3 in Epc.
+    pose proof (code_x_at3 _ _ _ _ _ _ _ Ejc (holes_nil _ _)) as Hjif.
+    pose proof (code_x_at1 _ _ _ _ _ Epc (fun x => x)) as Hpop.
+    destruct Ejmp as [Ejmpc _ _]. cbn [brk_holes flat_map] in Ejmpc.
+    pose proof (code_x_at3 _ _ _ _ _ _ _ Ejmpc (holes_nil _ _)) as Hjmp.
+    (* loop contexts of the pieces *)
+    assert (cur_start (c_loops st2) = start) as Cs2 by (rewrite Lp2; apply cur_start_snoc).
+    assert (cur_start (c_loops st4) = start) as Cs4.
+    { change (c_loops st4) with (c_loops st3). rewrite (cf_lp CF3), cur_start_add. exact Cs2. }
+    assert (0 <= start) as Hstart by lia.
+    (* the loop invariant *)
+    assert (forall fuel, callsok prog fuel -> forall lastv y0 fin0 tip0, funs_ok prog (y_funs y0) ->
+              length (y_loc y0) = length (y_loc y) ->
+              loop_post prog B (mk B tip0 (lastv :: ops) y0 start fin0) ops lexit_in
+                        (ywhile orc fuel st2 st4 c body lastv y0)) as Hloop.
+    { induction fuel as [|f' IHf]; intros HCf lastv y0 fin0 tip0 Hfo0 Hlen0; [exact I|].
+      pose proof (callsok_S _ _ HCf) as HCf'. specialize (IHf HCf').
+      rewrite yw_step. set (sh := mk B tip0 (lastv :: ops) y0 start fin0).
+      assert (loc_ok sc k5 y0) as Hloc0 by exact (loc_ok_len _ _ _ _ Hlen0 Hloc).
+      pose proof (Hsimc prog lexit_in Ec Re ltac:(rewrite Cs2; exact Hstart) f' HCf' B tip0 (lastv :: ops) y0 fin0 Hfo0
+                    (loc_ok_le _ _ _ _ Hk5 Hloc0)) as Hc1.
+      rewrite Cs2 in Hc1. change (code_len st2) with start in Hc1. fold sh in Hc1.
+      destruct (yeval orc f' st2 c y0) as [b y1|y1|y1|b y1|e|x| |] eqn:E1; cbn [ybind loop_post];
+        try (nosig_contra f' c fa fn st2 y0 Hfc E1); try exact Hc1.
+      loclen f' c st2 y0 E1 LL1.
+      cbn [sim2] in Hc1. destruct Hc1 as [fin1 [tip1 [Hc1 Hfo1]]].
+      set (sa := mk B tip1 (b :: lastv :: ops) y1 (code_len st3) fin1) in *.
+      pose proof (mk_step_jif orc prog B tip1 (lastv :: ops) y1 (code_len st3) fin1 lexit_in b [] Hjif Re) as Hstepj.
+      fold sa in Hstepj.
+      destruct b as [|bb| | | | |];
+        try (cbn [loop_post]; refine (reachesL_stopsL orc _ _ _ _ _ Hc1 _); [reflexivity|apply stopsL_now; exact Hstepj]).
+      destruct bb.
+      - (* another iteration: Pop the previous value, run the body *)
+        set (sb := mk B tip1 ops y1 (code_len st4) lastv).
+        assert (reachesL orc prog sh sb) as Hsb.
+        { apply (reachesL_trans orc prog sh sa _ Hc1).
+          apply (reachesL_trans orc prog sa _ _ (reachesL_step orc prog _ _ Hstepj)).
+          apply reachesL_step.
+          rewrite (mk_step_pop orc prog B tip1 ops y1 (code_len st3 + 3) fin1 lastv [] Hpop).
+          unfold sb. rewrite L4. replace (code_len st3 + 3 + 1) with (code_len st3 + 4) by lia. reflexivity. }
+        pose proof (Hsimb prog lexit_in Eb Re ltac:(rewrite Cs4; exact Hstart) f' HCf' B tip1 ops y1 lastv Hfo1
+                      (loc_ok_len _ _ _ _ LL1 Hloc0)) as Hb1.
+        rewrite Cs4 in Hb1. fold sb in Hb1.
+        pose proof (yblock_loc_len orc f' body st4 y1) as LL2.
+        destruct (yblock orc f' st4 body y1) as [v y2|y2|y2|v y2|e|x| |]; cbn [sim2 loop_post yres_loc] in *.
+        + destruct Hb1 as [fin2 [tip2 [Hb1 Hfo2]]].
+          set (sc0 := mk B tip2 (v :: ops) y2 (code_len st5) fin2) in *.
+          assert (reachesL orc prog sh (mk B tip2 (v :: ops) y2 start fin2)) as Hback.
+          { apply (reachesL_trans orc prog sh sb _ Hsb). apply (reachesL_trans orc prog sb sc0 _ Hb1).
+            apply reachesL_step. exact (mk_step_jump orc prog B tip2 (v :: ops) y2 (code_len st5) fin2 start [] Hjmp Rs). }
+          apply (loop_post_reach prog B sh _ ops lexit_in _ Hback eq_refl).
+          apply IHf; [exact Hfo2|lia].
+        + (* stop *)
+          destruct Hb1 as [fin2 [tip2 [Hb1 Hfo2]]]. exists fin2, tip2.
+          split; [exact (reachesL_trans orc prog sh sb _ Hsb Hb1)|exact Hfo2].
+        + (* volgende *)
+          destruct Hb1 as [fin2 [tip2 [Hb1 Hfo2]]].
+          assert (reachesL orc prog sh (mk B tip2 (VNull :: ops) y2 start fin2)) as Hback
+            by exact (reachesL_trans orc prog sh sb _ Hsb Hb1).
+          apply (loop_post_reach prog B sh _ ops lexit_in _ Hback eq_refl).
+          apply IHf; [exact Hfo2|lia].
+        + intros ret cbp rest Hbr. destruct (Hb1 ret cbp rest Hbr) as [fin2 [Hb2 Hfo2]]. exists fin2.
+          split; [exact (reachesL_trans orc prog sh sb _ Hsb Hb2)|exact Hfo2].
+        + refine (reachesL_stopsL orc _ _ _ _ _ Hsb Hb1). reflexivity.
+        + refine (reachesL_stopsL orc _ _ _ _ _ Hsb Hb1). reflexivity.
+        + exact (reachesL_excl orc prog _ _ Hsb Hb1).
+        + exact I.
+      - (* the condition is false: the loop's value is the value of the last iteration *)
+        exists fin1, tip1. split; [|exact Hfo1]. apply (reachesL_trans orc prog sh sa _ Hc1). apply reachesL_step.
+        exact Hstepj. }
+    (* enter the loop *)
+    pose proof (mk_step_null orc prog B tip ops y (code_len st) fin [] Hnull) as Hstep0.
+    rewrite <- L1 in Hstep0. fold start in Hstep0.
+    specialize (Hloop f (callsok_S _ _ HC) VNull y fin tip Hfo eq_refl). rewrite L'.
+    pose proof (loop_post_reach prog B _ _ ops lexit_in _ (reachesL_step orc prog _ _ Hstep0) eq_refl Hloop) as Hfin.
+    destruct (ywhile orc f st2 st4 c body VNull y) as [v3 y3|y3|y3|v3 y3|e|x| |]; cbn [loop_post sim2] in *;
+      try contradiction; exact Hfin.
   Qed.
 End Sim.
